@@ -8,7 +8,7 @@ PROPERTY = 'C12'
 LEVEL = 'exploration'
 WORKERS = 3
 RULE = ('grammars `cmd PRE(v1|...|vn)[SUF] next` (also through a definition, without PRE when a suffix is present, '
-        'two such words in sequence, two alternative words of the same shape, and the word as a later `||` branch) whose value sets are drawn from random tries with prefix chains '
+        'two such words in sequence, two alternative words of the same shape, the word as a later `||` branch, and two groups of the same values in one word with one value described differently in each) whose value sets are drawn from random tries with prefix chains '
         '(2-8 values, length 1-6) are compiled by the real binary and run in a real bash: every value typed as a '
         'complete word must be recognised (the next position offers `next`), every non-value must not, and every '
         'proper prefix of a value typed as the cursor word must offer exactly the values extending it. The case '
@@ -51,7 +51,7 @@ def make_case(r):
     vals = value_set(r)
     r.shuffle(vals)          # the order in which the grammar lists the values must not matter
     pre = r.choice(PRES)
-    shape = r.choice(['plain', 'plain', 'def', 'suffix', 'two', 'twins', 'twins', 'later-branch'])
+    shape = r.choice(['plain', 'plain', 'def', 'suffix', 'two', 'twins', 'twins', 'later-branch', 'two-groups'])
     suf = ''
     V = alt(*[lit(v) for v in vals])
     stmts = []
@@ -71,6 +71,15 @@ def make_case(r):
             pre = ''
             e = seq(('word', (V, lit(suf))), lit('next'))
         words_spec = [(pre, vals, suf)]
+    elif shape == 'two-groups':
+        # PRE(values),(values) in one word, one maximal value described differently in the two groups (one text,
+        # two literal ids inside one nested automaton); judged by explicit queries, see two_group_queries
+        maximal = [v for v in vals if not any(o != v and o.startswith(v) for o in vals)]
+        mark = r.choice(maximal)
+        g1 = alt(*[lit(v, 'first' if v == mark else None) for v in vals])
+        g2 = alt(*[lit(v, 'last' if v == mark else None) for v in vals])
+        e = seq(('word', (lit(pre), g1, lit(','), g2)), lit('next'))
+        words_spec = [(pre, vals, ',' + mark)]
     elif shape == 'later-branch':
         # the word is the second or third `||` branch, behind plain literals that share no prefix with it
         first = [lit('foobar'), lit('zz9')][:r.randint(1, 2)]
@@ -134,6 +143,24 @@ def queries_for(r, words_spec):
     return out
 
 
+def two_group_queries(r, pre, vals, mark):
+    maximal = [v for v in vals if not any(o != v and o.startswith(v) for o in vals)]
+    out = []
+    for x in [mark] + r.sample(maximal, min(2, len(maximal))):
+        for y in [mark, r.choice(maximal)]:
+            out.append(([pre + x + ',' + y, ''], 'value-recognised', {'next'}, {'value': x + ',' + y, 'shorter': False}))
+    pref = set()
+    for v in vals:
+        for k in range(0, len(v)):
+            if v[:k] not in vals:
+                pref.add(v[:k])
+    for p in sorted(pref):
+        out.append(([pre + p], 'prefix', {pre + v for v in vals if v.startswith(p)}, {'prefix': p}))
+        out.append(([pre + mark + ',' + p], 'prefix', {pre + mark + ',' + v for v in vals if v.startswith(p)}, {'prefix': p}))
+    out.append(([pre + mark + ',' + 'zz', ''], 'non-value', set(), {'value': 'zz'}))
+    return out
+
+
 def make_jobs(tier, seed):
     k = 60 if tier == 'quick' else 500
     return [('j', seed * 1000003 + i) for i in range(k)]
@@ -177,7 +204,11 @@ def run_case(stmts, words_spec, shape, qs, acc, origin):
 def run_job(job, acc):
     r = random.Random(job[1])
     stmts, words_spec, shape = make_case(r)
-    if shape == 'twins':
+    if shape == 'two-groups':
+        pre0, vals0, suf0 = words_spec[0]
+        qs = two_group_queries(r, pre0, vals0, suf0[1:])
+        words_spec = [(pre0, vals0, '')]
+    elif shape == 'twins':
         qs = queries_for(r, words_spec[:1]) + queries_for(r, words_spec[1:])
         r.shuffle(qs)
     else:
